@@ -391,4 +391,118 @@ Section PS.
     unfold sel. simpl map. rewrite idx2. unfold sum4. rewrite !idx2. fold B. rewrite EA.
     destruct bc, (nth c r false), (nth t r false); unfold mget, cphaseM, KT; simpl; ring.
   Qed.
+  (* ================================================================ pstep is sound for the matrix semantics *)
+  Section Rules.
+    Variables (h : T) (e : nat -> T) (n : nat).
+    Hypothesis e_0 : e 0 = t1.
+    Hypothesis e_add : forall x y, e (x + y) = e x *' e y.
+    Hypothesis e_half : e (2 ^ (n - 1)) = topp t1.
+
+    (* |b>  and  h (|0> + e(num) |1>) *)
+    Definition amp_of (s : qstate) : amp :=
+      match s with QB b => if b then (t0, t1) else (t1, t0) | QP u => (h, h *' e u) end.
+    Definition amps_of (f : qst) : list amp := map (fun q => amp_of (f q)) (seq 0 n).
+
+    (* the matrices of the gates: H = h [[1,1],[1,-1]], CU1(pi/2^k) = diag(1,1,1,e(2^(n-1-k))), SWAP *)
+    Definition gate_mat (g : qgate) : mat T :=
+      match g with
+      | QH q => embed KT n [q] [[h; h]; [h; topp h]]
+      | QCU1 c t k => embed KT n [c; t] (cphaseM (e (2 ^ (n - 1 - k))))
+      | QSWAP a b => embed KT n [a; b] swapM
+      end.
+    Definition wf_gate (g : qgate) : Prop :=
+      match g with
+      | QH q => q < n
+      | QCU1 c t _ => c <> t /\ c < n /\ t < n
+      | QSWAP a b => a <> b /\ a < n /\ b < n
+      end.
+
+    Lemma amps_of_length f : length (amps_of f) = n.
+    Proof. unfold amps_of. now rewrite map_length, seq_length. Qed.
+
+    Lemma amps_of_nth f q : q < n -> nth q (amps_of f) (t0, t0) = amp_of (f q).
+    Proof.
+      intros H. unfold amps_of.
+      rewrite (nth_indep _ (t0, t0) (amp_of (f 0))) by (now rewrite map_length, seq_length).
+      change (amp_of (f 0)) with ((fun q => amp_of (f q)) 0). rewrite map_nth.
+      now rewrite seq_nth.
+    Qed.
+
+    Lemma set_nth_map_seq {A} (F : nat -> A) v : forall m k q, q < m ->
+      set_nth q v (map F (seq k m)) = map (fun p => if p =? k + q then v else F p) (seq k m).
+    Proof.
+      induction m as [|m IH]; intros k q H; [lia|]. destruct q as [|q]; simpl.
+      - rewrite Nat.add_0_r, Nat.eqb_refl. f_equal. apply map_ext_in. intros p Hp. apply in_seq in Hp.
+        replace (p =? k) with false by (symmetry; apply Nat.eqb_neq; lia). reflexivity.
+      - replace (k =? k + S q) with false by (symmetry; apply Nat.eqb_neq; lia). f_equal.
+        rewrite (IH (S k) q) by lia. apply map_ext. intros p. now replace (S k + q) with (k + S q) by lia.
+    Qed.
+
+    Lemma amps_of_upd f q v : q < n -> amps_of (upd f q v) = set_nth q (amp_of v) (amps_of f).
+    Proof.
+      intros H. unfold amps_of. rewrite set_nth_map_seq by exact H. apply map_ext. intros p.
+      unfold upd. simpl. now destruct (p =? q).
+    Qed.
+
+    Theorem pstep_sound f g f' :
+      wf_gate g -> pstep n f g = Some f' ->
+      mmul KT (gate_mat g) (col (pvec n (amps_of f))) = col (pvec n (amps_of f')).
+    Proof.
+      destruct g as [q|c t k|a b]; simpl; intros W P.
+      - destruct (f q) as [b|] eqn:Fq; [|discriminate]. injection P as <-.
+        rewrite embed1_product by (rewrite ?amps_of_length; auto). cbv zeta.
+        rewrite amps_of_upd, amps_of_nth, Fq by exact W. do 3 f_equal.
+        destruct b; simpl.
+        + rewrite Nat.add_0_r, e_half. f_equal; ring.
+        + rewrite e_0. f_equal; ring.
+      - destruct W as [Nct [Hc Ht]].
+        destruct (f c) as [bc|] eqn:Fc; [|discriminate]. destruct (f t) as [|num] eqn:Ft; [discriminate|].
+        destruct (k <? n); [|discriminate]. injection P as <-.
+        rewrite (cphase_product n c t _ bc) by (rewrite ?amps_of_length, ?amps_of_nth, ?Fc; auto; now destruct bc).
+        cbv zeta. rewrite amps_of_upd, amps_of_nth, Ft by exact Ht. do 3 f_equal. simpl. f_equal.
+        destruct bc; simpl.
+        + rewrite Nat.add_0_r, e_add. ring.
+        + rewrite Nat.add_0_r. ring.
+      - destruct W as [Nab [Ha Hb]]. injection P as <-.
+        rewrite swap_product by (rewrite ?amps_of_length; auto).
+        rewrite !amps_of_upd, !amps_of_nth by assumption. now rewrite set_nth_comm by auto.
+    Qed.
+
+    (* state-vector simulation with the Base/Mat.v matrices: apply the gate matrices one after the other *)
+    Definition apply_gates (gs : list qgate) (v : mat T) : mat T :=
+      fold_left (fun v g => mmul KT (gate_mat g) v) gs v.
+
+    Theorem prun_sound : forall gs f f',
+      Forall wf_gate gs -> prun n gs f = Some f' ->
+      apply_gates gs (col (pvec n (amps_of f))) = col (pvec n (amps_of f')).
+    Proof.
+      induction gs as [|g gs IH]; intros f f' W P.
+      - injection P as <-. reflexivity.
+      - inversion W as [|? ? Wg Wgs]; subst. unfold prun in P. simpl in P.
+        destruct (pstep n f g) as [f1|] eqn:E.
+        + simpl. rewrite (pstep_sound f g f1 Wg E). apply IH; assumption.
+        + exfalso. clear -P. induction gs as [|g' gs IHg]; simpl in P; [discriminate | auto].
+    Qed.
+
+    (* a basis column and a column of phases as product states *)
+    Lemma den_basis : forall (x c : list bool), length c = length x ->
+      den (map (fun b : bool => if b then (t0, t1) else (t1, t0)) x) c = if beqb x c then t1 else t0.
+    Proof.
+      induction x as [|b x IH]; intros [|y c] L; try discriminate; simpl; [reflexivity|].
+      injection L as L. rewrite (IH c L). destruct b, y; simpl; destruct (beqb x c); ring.
+    Qed.
+
+    Fixpoint tpow (a : T) (k : nat) : T := match k with O => t1 | S k' => a *' tpow a k' end.
+
+    Lemma den_phases : forall (ps : list nat) (y : list bool), length y = length ps ->
+      den (map (fun p => (h, h *' e p)) ps) y =
+      tpow h (length ps) *' e (list_sum (map (fun yp => b2n (fst yp) * snd yp) (combine y ps))).
+    Proof.
+      induction ps as [|p ps IH]; intros [|b y] L; try discriminate; simpl.
+      - rewrite e_0. ring.
+      - injection L as L. rewrite (IH y L), e_add. destruct b; simpl.
+        + rewrite Nat.add_0_r. ring.
+        + rewrite e_0. ring.
+    Qed.
+  End Rules.
 End PS.
